@@ -284,7 +284,7 @@ Theorem C17_roundtrip_guard_sound : forall strtod fmt16 w ob,
 Proof. exact roundtrip_ok_b_ok. Qed.
 Print Assumptions C17_roundtrip_guard_sound.
 
-(* outside the class the statement is false (recorded findings F-C17c, F-C17h and the case-insensitive keys) *)
+(* outside the class the statement is false (recorded findings F-C17c, F-C17h, F-C17k and the case-insensitive keys) *)
 Theorem C17_roundtrip_unsafe_refuted :
   forallb (fun s => negb (ini_safe s) && negb (ostr_eqb (snd (str_roundtrip s)) (Some s))) unsafe_witnesses = true.
 Proof. exact roundtrip_unsafe_refuted. Qed.
@@ -309,6 +309,18 @@ Theorem C17_key_case_collision_refuted :
                  (get_opts (snd (run toy_strtod toy_fmt empty_world (firstn 7 case_history))) 0) = false.
 Proof. exact key_case_collision_refuted. Qed.
 Print Assumptions C17_key_case_collision_refuted.
+
+(* F-C17k: an option "b" of the sub-options "pre" and nested sub-options with the prefix "B": entry and
+   section heading share the dictionary slot "pre:b" and the switch is silently not restored *)
+Theorem C17_key_section_collision_refuted :
+  let r := run toy_strtod toy_fmt empty_world sec_history in
+  skipn 14 (fst r) = [4; 0; 0] /\
+  (st_int (w_store (snd r)) 1, st_int (w_store (snd r)) 0) = (1, 7) /\
+  (st_int (w_store (snd r)) 33, st_int (w_store (snd r)) 32) = (0, 7) /\
+  roundtrip_ok_b toy_strtod toy_fmt (snd (run toy_strtod toy_fmt empty_world (firstn 15 sec_history)))
+                 (get_opts (snd (run toy_strtod toy_fmt empty_world (firstn 15 sec_history))) 0) = false.
+Proof. exact key_section_collision_refuted. Qed.
+Print Assumptions C17_key_section_collision_refuted.
 
 (* === hypotheses are satisfiable, by a non-trivial state === *)
 Example C17_ex_roundtrip_hypotheses : roundtrip_ok toy_strtod toy_fmt wx (get_opts wx 0).
